@@ -95,7 +95,12 @@ def run_c08(prop, tier):
         if ns is None:
             classes = codec.load_ndjson(os.path.join(d, "u.ndjson"))
             src = replay_typed.universe_source(classes)
-            ns = {}
+            # a real module, so that string annotations resolve (get_type_hints looks in sys.modules)
+            import sys
+            import types
+            umod = types.ModuleType("c08_universe")
+            sys.modules["c08_universe"] = umod
+            ns = umod.__dict__
             exec(compile(src, "<universe C08>", "exec"), ns)
             rep.extra["universe"] = [c["name"] + ("[" + ",".join(c["params"]) + "]" if c["params"] else "")
                                      for c in classes]
